@@ -17,7 +17,7 @@ CHECKS = {
         technique="table regeneration from live parsers + Lean 4 proof (locality of option blocks, induction over blocks) + differential execution of process_args",
         ref="§4 C17"),
     "C16": dict(
-        text="Theorems on the Lean models of TestcaseJsStr / TestcaseAttrs.split_parts: C16_js_exact (the reducible JS atoms WITH THEIR BYTE OFFSETS in the file are EXACTLY the string characters of the reference segmentation Js.specJs — find the next quote; if the body behind it has a closing quote its tokens are string characters, the quotes and the text outside are not; if the data ends first the quote is ordinary text and the search resumes right behind it — proved through the scanner's back-tracking on an unterminated quote (rewind to the last opening quote), the header/footer cut and the gap merge: LithiumProofs/SplitJsSpec.lean, outer_spec + mergeLoop_sp + splitJs_spans), C16_js_partition, C16_js_token_progress, C16_js_tokens (every reducible JS atom is one token of the escape grammar, never a fragment of an escape), C16_attrs_partition (parts partition the data, are non-empty, one flag each; never raises), C16_attrs_shape (every reducible attribute atom is one complete attribute: leading whitespace, name, then nothing / '=' quoted value through its first closing quote / '=' unquoted value without whitespace or '>'), C16_attrs_in_tag (every reducible attribute atom lies inside a tag: preceded by a part that ends in '<', optional whitespace, a tag name, with only complete attributes and '>'-free text in between). The Lean reference segmentation is itself compared, on every run, with an independently written Python reference tokenizer (driver command jsspec) on every string up to length 5/6 over adversarial alphabets plus grammar-directed and marker-bearing streams; the splitter models are tied to the code field by field on the same inputs; atoms are also checked through the brace collapse, through both rewriting strategies and on re-used loader objects.",
+        text="Theorems on the Lean models of TestcaseJsStr / TestcaseAttrs.split_parts: C16_js_exact (the reducible JS atoms WITH THEIR BYTE OFFSETS in the file are EXACTLY the string characters of the reference segmentation Js.specJs — find the next quote; if the body behind it has a closing quote its tokens are string characters, the quotes and the text outside are not; if the data ends first the quote is ordinary text and the search resumes right behind it — proved through the scanner's back-tracking on an unterminated quote (rewind to the last opening quote), the header/footer cut and the gap merge: LithiumProofs/SplitJsSpec.lean, outer_spec + mergeLoop_sp + splitJs_spans), C16_js_partition, C16_js_token_progress, C16_js_tokens (every reducible JS atom is one token of the escape grammar, never a fragment of an escape), C16_attrs_partition (parts partition the data, are non-empty, one flag each; never raises), C16_attrs_shape (every reducible attribute atom is one complete attribute: leading whitespace, name, then nothing / '=' quoted value through its first closing quote / '=' unquoted value without whitespace or '>'), C16_attrs_in_tag (every reducible attribute atom lies inside a tag: preceded by a part that ends in '<', optional whitespace, a tag name, with only complete attributes and '>'-free text in between). The Lean reference segmentation is itself compared, on every run, with an independently written Python reference tokenizer (driver command jsspec) on every string up to length 5/6 over adversarial alphabets plus grammar-directed and marker-bearing streams; the splitter models are tied to the code field by field on the same inputs; atoms are also checked through the brace collapse, through both rewriting strategies and on re-used loader objects. C16_attrs_not_continued (behind every reducible attribute atom that does not end with a quoted value the next part starts with white space or '>': an unquoted value or a value-less name is never cut short, also not at the end of the data).",
         note=NOTE + "The reference segmentation is a definition (25 lines of Lean, LithiumModel/JsSpec.lean) that a reader has to accept as the meaning of 'inside a properly terminated string'; its agreement with a second, independently written tokenizer is tested, not proved. Marker handling (DDBEGIN/DDEND around the JS region) is C05/C08.",
         technique="Lean 4 proof (refinement of the splitter state machines to a reference segmentation: simulation of the scanner by a greedy labelled pass, rewind lemma, offset-preserving gap merge; shape and in-tag invariants for attributes) + exhaustive short-string correspondence + independent reference tokenizer",
         ref="§4 C16"),
